@@ -75,6 +75,8 @@ type Rec struct {
 	// Bad: a record that cannot be encoded (its tag map is nil, as in a struct literal that bypassed the constructor):
 	// encoding it fails half way. Nothing is asserted about this record itself; the records around it must be unaffected.
 	Bad bool `json:"bad,omitempty"`
+	// NoTime: the record's time stamp was never set (Time == 0); it is a record like any other (seed C16-s24)
+	NoTime bool `json:"notime,omitempty"`
 }
 
 func mkRecord(r Rec, tm int64, id int64) *pack.LogSinkPack {
@@ -86,6 +88,9 @@ func mkRecord(r Rec, tm int64, id int64) *pack.LogSinkPack {
 	}
 	p.Content = string(b)
 	p.Time = tm
+	if r.NoTime {
+		p.Time = 0
+	}
 	p.Line = id // unique id of the record within the case
 	if r.Bad {
 		p.Tags = nil
@@ -280,7 +285,7 @@ func runSeq(c SeqCase) *pbt.Result {
 		}
 		cur, curLen, first = nil, 0, 0
 	}
-	belowZip, badRecords, mixed, reconfigured := 0, 0, 0, 0
+	belowZip, badRecords, mixed, reconfigured, noTime := 0, 0, 0, 0, 0
 	var zipMinOf []int // compression minimum in force when batch i was emitted
 	closeBatch := flush
 	flush = func() {
@@ -306,12 +311,17 @@ func runSeq(c SeqCase) *pbt.Result {
 				z.Append(p)
 				cur = append(cur, enc)
 				curLen += len(enc)
+				rt := tm // the record's own time stamp: the waiting time of a batch runs from its first time-stamped record
+				if r.NoTime {
+					rt = 0
+					noTime++
+				}
 				if first == 0 {
-					first = tm
+					first = rt
 					if curLen >= c.Buf {
 						flush()
 					}
-				} else if curLen >= c.Buf || tm-first >= int64(c.Wait) {
+				} else if curLen >= c.Buf || rt-first >= int64(c.Wait) {
 					flush()
 				}
 			}
@@ -382,6 +392,9 @@ func runSeq(c SeqCase) *pbt.Result {
 	if mixed > 0 {
 		classes = append(classes, "send-direct-while-appended-records-are-pending")
 	}
+	if noTime > 0 {
+		classes = append(classes, "records-without-time-stamp")
+	}
 	if reconfigured > 0 {
 		classes = append(classes, "settings-changed-by-configuration-update")
 	}
@@ -430,6 +443,9 @@ var specSeq = pbt.Register(pbt.Spec[SeqCase]{
 					r := drawRec(t, c.Buf)
 					if k == "append" && rapid.IntRange(0, 19).Draw(t, "bad") == 0 {
 						r.Bad = true
+					}
+					if k == "append" && rapid.IntRange(0, 7).Draw(t, "notime") == 0 {
+						r.NoTime = true
 					}
 					op.Recs = append(op.Recs, r)
 				}
